@@ -453,6 +453,16 @@ func (cs *Case) vclass(sp *spec, in []*big.Int, i int, got, exp *big.Int) string
 		return ""
 	}
 	rel := cs.relation(sp)
+	if cs.goldschmidt() {
+		// Known finding F11: the Goldschmidt quotient estimate can be 2
+		// too large while only a +/-1 correction exists.  Quotient off
+		// by exactly 2 (remainder by exactly 2*|b|) gets one
+		// relation-independent signature per builder/target; every
+		// other error keeps its relation-specific signature.
+		if c := cs.errClass(sp, in, i, got, exp); c == "/q+2" || c == "/q-2" || c == "/r-2b" || c == "/r+2b" {
+			return "/goldschmidt-off-by-2"
+		}
+	}
 	if sp.family == "idiv" && strings.HasSuffix(rel, "wr>n") {
 		w := cs.signedWidth()
 		if in[0].Bit(w-1) != in[1].Bit(w-1) {
@@ -461,6 +471,26 @@ func (cs *Case) vclass(sp *spec, in []*big.Int, i int, got, exp *big.Int) string
 		return "/nonnegative-quotient"
 	}
 	if rel != "wx=wy,wr=n" {
+		return ""
+	}
+	return cs.errClass(sp, in, i, got, exp)
+}
+
+// goldschmidt tells whether the case is built on NewUDividerGoldschmidtFast.
+func (cs *Case) goldschmidt() bool {
+	switch cs.B {
+	case "NewUDividerGoldschmidtFast":
+		return true
+	case "NewUDivider", "NewIDivider":
+		return cs.target() == "gmw"
+	}
+	return false
+}
+
+// errClass classifies a wrong divider output: quotient off by k, remainder off
+// by k*|divisor| (|k| <= 3), modulo 2^wr.
+func (cs *Case) errClass(sp *spec, in []*big.Int, i int, got, exp *big.Int) string {
+	if cs.WR < 3 {
 		return ""
 	}
 	// Error class: quotient off by k, remainder off by k*|divisor| (|k| <= 3).
@@ -498,6 +528,9 @@ func (cs *Case) vclass(sp *spec, in []*big.Int, i int, got, exp *big.Int) string
 }
 
 func (cs *Case) sig(sp *spec, vclass, kind string) string {
+	if vclass == "/goldschmidt-off-by-2" {
+		return fmt.Sprintf("%s/%s%s/%s", cs.B, cs.target(), vclass, kind)
+	}
 	return fmt.Sprintf("%s/%s/%s%s/%s", cs.B, cs.target(), cs.relation(sp), vclass, kind)
 }
 
